@@ -345,7 +345,14 @@ func (r *Reader) extractParagraph(p *pXML) Paragraph {
 
 	// Get paragraph properties
 	if p.PPr != nil {
+		// a:pPr lvl is one of the nine indent levels 0-8; callers indent per level, so a
+		// number outside that range in the file is held at the nearest valid level.
 		para.Level = p.PPr.Lvl
+		if para.Level < 0 {
+			para.Level = 0
+		} else if para.Level > 8 {
+			para.Level = 8
+		}
 		para.Alignment = p.PPr.Algn
 
 		// Check for bullets
